@@ -222,7 +222,7 @@ def all_obligations():
 
     # ---------------- parse.c scan(): bounded window against a naive matcher (C14 O14.3)
     for live, words, tier in ((20, 2, 'quick'), (5, 3, 'thorough'), (63, 2, 'thorough'), (0, 3, 'thorough')):
-        A(Ob(name=f'parse.scan.L{live}W{words}', props=['C14', 'C10', 'C08'], kind='bounded', harness='h_parse.c', entry='h_scan', tier=tier, solver='cadical',
+        A(Ob(name=f'parse.scan.L{live}W{words}', props=['C14'] + (['C10', 'C08'] if tier == 'thorough' else []), kind='bounded', harness='h_parse.c', entry='h_scan', tier=tier, solver='cadical',
              defines={'SCAN_LIVE': str(live), 'SCAN_WORDS': str(words)}, timeout=2400,
              bound=f'{live} buffered bits + {words} input words, every bit symbolic; skip distance symbolic (0..{live + 32 * words + 40})',
              what='scan() returns OK exactly when the 48-bit pattern 0x314159265359 occurs wholly at or after the start position (current position, or the word boundary the skip distance '
@@ -295,9 +295,11 @@ def all_obligations():
     XS = ['section extraction: the lines are copied verbatim from the current source; the rest of the enclosing function is dropped and replaced by the stated context assumptions',
           'encoder_state stand-in: member u.s with its real type (__typeof__), without the union overlay with bucket[]']
     for slot, tier in ((0, 'quick'), (3, 'thorough')):
-        A(Ob(name=f'encode.dummy_table.slot{slot}', props=['C02', 'C20', 'C08'], kind='lemma', harness='h_encode_sections.c', entry='h_dummy_table', defines={'DT_SLOT': str(slot)}, tier=tier, solver='cadical',
-             what='generate_prefix_code(), single-table blocks: for EVERY alphabet size 3..258 the dummy second table has lengths within 1..20, Kraft sum exactly 1 (complete), '
-                  'one +1 step at most, and the cost added equals its transmitted size',
+      for lo, hi in ((3, 66), (67, 130), (131, 194), (195, 258)):
+        A(Ob(name=f'encode.dummy_table.slot{slot}.as{lo}_{hi}', props=['C02', 'C08'], kind='lemma', harness='h_encode_sections.c', entry='h_dummy_table', tier=tier, solver='cadical',
+             defines={'DT_SLOT': str(slot), 'DT_LO': str(lo), 'DT_HI': str(hi)},
+             what=f'generate_prefix_code(), single-table blocks: for EVERY alphabet size {lo}..{hi} (the four instances cover 3..258) the dummy second table has lengths within 1..20, '
+                  'Kraft sum exactly 1 (complete), one +1 step at most, and the cost added equals its transmitted size',
              functions=['generate_prefix_code (dummy-table section)'], flags=['--unwind', '262', '--unwinding-assertions'], timeout=1200,
              expect=['dummy table: the code is complete', 'dummy table: every code length is within'], assumed=XS, replayable=True))
     A(Ob(name='encode.padding', props=['C02', 'C08'], kind='lemma', harness='h_encode_sections.c', entry='h_padding',
@@ -319,6 +321,8 @@ def all_obligations():
          functions=['transmit (first-length section)'], flags=['--unwind', '8', '--unwinding-assertions'], expect=['first table: the 5-bit start value stays within'], assumed=XS, replayable=True))
 
     # ---------------- encode.c collect(): one-step conformance with the greedy packing rule (C04 O4.1, C01 O1.1, C02 O2.4)
+    # collect(): CBMC's pointer-overflow check is left out here (measured: 227 s -> 6 s per instance; every pointer the function forms is still bounds- and validity-checked when used)
+    COLLECT_CHECKS = ['--bounds-check', '--pointer-check', '--signed-overflow-check', '--undefined-shift-check', '--div-by-zero-check']
     def collect_states(maxcap):
         for cap in range(1, maxcap + 1):
             for fill in range(0, cap):                       # a saved (non-full) state always has room for one more byte
@@ -329,15 +333,32 @@ def all_obligations():
         for nin in (1, 2, 3, 4):
             if nin >= 3 and cap - fill > 2:
                 continue        # three or more symbolic bytes with room for all of them: symbolic execution of the goto-built machine does not finish (measured, > 600 s)
-            tier = 'quick' if (cap <= 6 and nin <= 3) else 'thorough'
-            A(Ob(name=f'encode.collect.M{cap}F{fill}K{k}N{nin}', props=['C04', 'C01'] + (['C02', 'C08'] if cap == 5 else []), kind='bounded', tier=tier, harness='h_collect.c', entry='h_collect_step',
+            tier = 'quick' if (cap <= 5 and nin <= 3) else 'thorough'
+            A(Ob(name=f'encode.collect.M{cap}F{fill}K{k}N{nin}', props=['C04', 'C01'] + (['C02', 'C08'] if (cap == 5 and fill >= 3) else []), kind='bounded', tier=tier, harness='h_collect.c', entry='h_collect_step',
                  extra_srcs=['src/crctab.c'], defines={'CAP': str(cap), 'FILL': str(fill), 'RUNK': str(k), 'NIN': str(nin)},
                  bound=f'block capacity {cap}, {fill} bytes already stored, pending run state {k}, {nin} symbolic input byte(s); block contents, run byte, CRC and in-use map symbolic',
                  what='one call of the real collect() from this saved state consumes, stores, counts runs, updates CRC / in-use map / saved run state and reports "full" exactly as the '
                       'greedy packing rule of C04 applied byte by byte (four copies + count, a fourth equal byte only if it and its count fit, runs cut at 259); block never exceeds capacity',
-                 functions=['collect'], flags=['--unwind', str(nin + 2), '--unwindset', ','.join(f'h_collect_step.{i}:258' for i in range(6)), '--unwinding-assertions'], timeout=600,
+                 functions=['collect'], checks=COLLECT_CHECKS, flags=['--unwind', str(nin + 2), '--unwindset', ','.join(f'h_collect_step.{i}:258' for i in range(6)), '--unwinding-assertions'], timeout=600,
                  expect=['collect consumes exactly the input bytes', 'block never exceeds its capacity', "collect reports 'block full' exactly"], replayable=True, replay_src='encode.c',
                  assumed=['divbwt() stub (not called by collect)', 'saved states enumerated: every (capacity <= 8, fill, run state in {0..5,257,258}) a call can leave behind']))
+
+    # collect(): whole runs inside one call, concrete bytes (the in-line "state 4+" loop): a run of r equal bytes after i other bytes, then a different byte
+    def patterns():
+        for cap in (6, 7, 8):
+            for lead in range(0, cap - 3):
+                for run in (4, 5, 6):
+                    yield cap, [66] * lead + [65] * run + [67, 68]
+    for cap, pat in patterns():
+        nm = ''.join(chr(b) for b in pat)
+        A(Ob(name=f'encode.collect.pat.M{cap}.{nm}', props=['C04', 'C01'], kind='bounded', tier='quick' if cap in (6, 7) else 'thorough', harness='h_collect.c', entry='h_collect_step',
+             extra_srcs=['src/crctab.c'], defines={'CAP': str(cap), 'FILL': '0', 'RUNK': '0', 'NIN': str(len(pat)), 'PATTERN': '{' + ','.join(map(str, pat)) + '}'},
+             bound=f'block capacity {cap}, empty block, the concrete input {nm} (runs of equal bytes entirely inside one call); in-use map symbolic, CRC start value as after encoder_init()',
+             what='one call of the real collect() on this input packs exactly as the greedy rule of C04 applied byte by byte (count byte after four copies, the byte after a run starts a new '
+                  'literal whenever one slot is free, block closed otherwise, runs cut at 259)',
+             functions=['collect'], checks=COLLECT_CHECKS, flags=['--unwind', str(len(pat) + 3), '--unwindset', ','.join(f'h_collect_step.{i}:258' for i in range(7)), '--unwinding-assertions'], timeout=600,
+             expect=['collect consumes exactly the input bytes', 'block never exceeds its capacity'], replayable=True, replay_src='encode.c',
+             assumed=['divbwt() stub (not called by collect)']))
 
     # ---------------- process.c I/O primitives
     POSIX_RW = ['read(): POSIX contract (-1 | 0 | 1..count), stored bytes not modelled', 'write(): POSIX contract (-1 | 1..count for count>0)',
